@@ -29,8 +29,13 @@ import (
 )
 
 // Engine "regrace" (property C10): registrations of several sessions run CONCURRENTLY through the real
-// Control.RegisterProxy, their interleaving decided op by op through the gates `reg.checked` (after the
-// quota charge and the Exist check, before pxy.Run) and `reg.ran` (after pxy.Run, before pxyManager.Add).
+// Control: the harness (as frpc) writes NewProxy on the session's control connection, the session's
+// dispatcher runs handleNewProxy → RegisterProxy; the interleaving is decided op by op through the gates
+// `reg.checked` (after the quota charge and the Exist check, before pxy.Run) and `reg.ran` (after pxy.Run,
+// before pxyManager.Add); `reg.added` is observed (not parked at).  The answer of a registration is the
+// NewProxyResp read from the control connection.  A session may END WHILE ITS OWN REGISTRATION IS PARKED
+// (`endsess` answers `pending`): the control connection is closed, the teardown must wait for the
+// registration; the step that lets the registration finish answers `gone` once Control.worker is done.
 // Every failure step of a registration is reachable: quota, name exists, resource conflict inside Run,
 // name taken concurrently at Add.  Observed after every op sequence: port tables, http routes, visitor
 // listeners, the name table with its owners and each session's quota counter (Control.portsUsedNum).
@@ -41,13 +46,18 @@ import (
 //	begin <sid> <name> stcp
 //	step <sid>                                            => at:ran | ok | err:conflict | err:inuse | noflight
 //	close <sid> <name>                                    => - | busy
-//	endsess <sid>                                         => - | busy
+//	endsess <sid>                                         => - | pending (a registration of the session is parked)
+//	step <sid> of a session whose end is pending          => at:ran | gone
 //	view                                                  => tcp[k=name,…]udp[…]http[…]visitor[…]names[name=sid,…]quota[1=q,2=q,3=q]
 const rrSessions = 3
 
 type rrFlight struct {
-	events chan string   // "at:<gate>" or the final result
-	resume chan struct{} // one token per gate
+	events  chan string   // "at:<gate>" or the final result (from NewProxyResp)
+	resume  chan struct{} // one token per gate
+	added   chan struct{} // closed when the registration passed pxyManager.Add (gate reg.added)
+	addOnce sync.Once
+	ending  bool          // the control connection was closed while the registration was parked
+	ctlDone chan struct{} // closed when Control.worker finished (set with ending)
 }
 
 type rrState struct {
@@ -57,6 +67,7 @@ type rrState struct {
 	routers *vhost.Routers
 	pm      *proxy.Manager
 	ctls    map[int]*server.Control
+	cli     map[int]net.Conn // frpc's end of the control connection
 	conns   []net.Conn
 	mu      sync.Mutex
 	flights map[string]*rrFlight // by run id
@@ -77,11 +88,7 @@ func rrClose() {
 	st.mu.Unlock()
 	for _, f := range fl {
 		close(f.resume)
-		for ev := range f.events {
-			_ = ev
-		}
 	}
-	verifhook.Set(nil)
 	for _, c := range st.ctls {
 		c.Close()
 	}
@@ -89,14 +96,26 @@ func rrClose() {
 		c.Close()
 	}
 	for _, c := range st.ctls {
-		c.WaitClosed()
+		rrWaitClosed(c, 3*time.Second)
 	}
+	verifhook.Set(nil)
 	rrSt = nil
+}
+
+func rrWaitClosed(c *server.Control, d time.Duration) bool {
+	done := make(chan struct{})
+	go func() { c.WaitClosed(); close(done) }()
+	select {
+	case <-done:
+		return true
+	case <-time.After(d):
+		return false
+	}
 }
 
 func rrReset(maxPorts int) {
 	rrClose()
-	st := &rrState{ctls: map[int]*server.Control{}, flights: map[string]*rrFlight{}}
+	st := &rrState{ctls: map[int]*server.Control{}, cli: map[int]net.Conn{}, flights: map[string]*rrFlight{}}
 	st.base = pickBase(portsRng)
 	cfg := &v1.ServerConfig{}
 	cfg.Complete()
@@ -122,7 +141,7 @@ func rrReset(maxPorts int) {
 	st.pm = proxy.NewManager()
 	rrSt = st
 	verifhook.Set(func(point string, keys []string) {
-		if point != "reg.checked" && point != "reg.ran" {
+		if point != "reg.checked" && point != "reg.ran" && point != "reg.added" {
 			return
 		}
 		st.mu.Lock()
@@ -130,6 +149,10 @@ func rrReset(maxPorts int) {
 		dr := st.drain
 		st.mu.Unlock()
 		if f == nil || dr {
+			return
+		}
+		if point == "reg.added" {
+			f.addOnce.Do(func() { close(f.added) })
 			return
 		}
 		f.events <- "at:" + strings.TrimPrefix(point, "reg.")
@@ -143,15 +166,30 @@ func (st *rrState) ctl(sid int) *server.Control {
 	}
 	a, b := net.Pipe()
 	st.conns = append(st.conns, a, b)
+	st.cli[sid] = b
+	runID := "run" + strconv.Itoa(sid)
+	// frpc's control loop: the answer to NewProxy is the result of the registration in flight
 	go func() {
-		buf := make([]byte, 4096)
 		for {
-			if _, err := b.Read(buf); err != nil {
+			m, err := msg.ReadMsg(b)
+			if err != nil {
 				return
+			}
+			if r, ok := m.(*msg.NewProxyResp); ok {
+				st.mu.Lock()
+				f := st.flights[runID]
+				st.mu.Unlock()
+				if f != nil {
+					res := "ok"
+					if r.Error != "" {
+						res = rrClassify(fmt.Errorf("%s", r.Error))
+					}
+					f.events <- res
+				}
 			}
 		}
 	}()
-	login := &msg.Login{RunID: "run" + strconv.Itoa(sid), User: "u" + strconv.Itoa(sid), Hostname: strconv.Itoa(sid)}
+	login := &msg.Login{RunID: runID, User: "u" + strconv.Itoa(sid), Hostname: strconv.Itoa(sid)}
 	c, err := server.NewControl(context.Background(), st.rc, st.pm, st.rc.PluginManager,
 		auth.NewAuthVerifier(st.cfg.Auth), a, false, login, st.cfg)
 	if err != nil {
@@ -179,15 +217,36 @@ func rrClassify(err error) string {
 }
 
 func (st *rrState) wait(f *rrFlight, runID string) string {
-	select {
-	case ev := <-f.events:
+	var gone chan struct{}
+	if f.ending {
+		gone = f.ctlDone // the answer cannot be delivered any more: the session's teardown is the end of the step
+	}
+	event := func(ev string) string {
 		if !strings.HasPrefix(ev, "at:") {
 			st.mu.Lock()
 			delete(st.flights, runID)
 			st.mu.Unlock()
 		}
 		return ev
-	case <-time.After(20 * time.Second):
+	}
+	select {
+	case ev := <-f.events:
+		return event(ev)
+	case <-gone:
+		// Control.worker is done.  It waits for the dispatcher, which is inside handleNewProxy: whatever the
+		// registration did, it did before (a gate event or reg.added is already there).  If nothing is there,
+		// give a registration that the teardown may have overtaken a moment to show up.
+		select {
+		case ev := <-f.events:
+			return event(ev)
+		case <-f.added:
+		case <-time.After(100 * time.Millisecond):
+		}
+		st.mu.Lock()
+		delete(st.flights, runID)
+		st.mu.Unlock()
+		return "gone"
+	case <-time.After(3 * time.Second):
 		return "TIMEOUT"
 	}
 }
@@ -267,27 +326,20 @@ func rrExec(tok []string) string {
 		case "stcp":
 			m.Sk = "sk"
 		}
-		c := st.ctl(sid)
+		st.ctl(sid)
 		runID := "run" + strconv.Itoa(sid)
-		f := &rrFlight{events: make(chan string, 4), resume: make(chan struct{}, 4)}
+		f := &rrFlight{events: make(chan string, 8), resume: make(chan struct{}, 4), added: make(chan struct{})}
 		st.mu.Lock()
 		st.flights[runID] = f
 		st.mu.Unlock()
-		go func() {
-			res := "ok"
-			func() {
-				defer func() {
-					if r := recover(); r != nil {
-						res = "PANIC:" + hx(fmt.Sprint(r))
-					}
-				}()
-				if _, err := c.RegisterProxy(m); err != nil {
-					res = rrClassify(err)
-				}
-			}()
-			f.events <- res
-			close(f.events)
-		}()
+		b := st.cli[sid]
+		_ = b.SetWriteDeadline(time.Now().Add(3 * time.Second))
+		if err := msg.WriteMsg(b, m); err != nil {
+			st.mu.Lock()
+			delete(st.flights, runID)
+			st.mu.Unlock()
+			return "err:send"
+		}
 		return st.wait(f, runID)
 	case "step":
 		runID := "run" + tok[1]
@@ -298,7 +350,13 @@ func rrExec(tok []string) string {
 			return "noflight"
 		}
 		f.resume <- struct{}{}
-		return st.wait(f, runID)
+		res := st.wait(f, runID)
+		if res == "gone" {
+			sid := atoi(tok[1])
+			delete(st.ctls, sid)
+			delete(st.cli, sid)
+		}
+		return res
 	case "close":
 		if st.busy(atoi(tok[1])) {
 			return "busy"
@@ -307,13 +365,27 @@ func rrExec(tok []string) string {
 		return "-"
 	case "endsess":
 		sid := atoi(tok[1])
-		if st.busy(sid) {
-			return "busy"
+		c, ok := st.ctls[sid]
+		st.mu.Lock()
+		f := st.flights["run"+strconv.Itoa(sid)]
+		st.mu.Unlock()
+		if f != nil && ok {
+			// the control connection drops while the session's registration is parked between two sections
+			if !f.ending {
+				f.ctlDone = make(chan struct{})
+				f.ending = true
+				c.Close()
+				go func(ch chan struct{}) { c.WaitClosed(); close(ch) }(f.ctlDone)
+			}
+			return "pending"
 		}
-		if c, ok := st.ctls[sid]; ok {
+		if ok {
 			c.Close()
-			c.WaitClosed()
+			if !rrWaitClosed(c, 3*time.Second) {
+				return "TIMEOUT"
+			}
 			delete(st.ctls, sid)
+			delete(st.cli, sid)
 		}
 		return "-"
 	case "view":
@@ -443,6 +515,38 @@ func rrGen(rng *rand.Rand, n int, emit func(string)) {
 				}
 				out("view")
 			}
+		case k < 38:
+			// the control connection of a session drops while its own registration is parked after 0 or 1
+			// sections; the other sessions go on; the registration's remaining sections run; afterwards the
+			// identical registration is submitted on a new session of the same client and by another session
+			sid := 1 + rng.Intn(rrSessions)
+			finish(sid)
+			line := newReg(sid, "p"+strconv.Itoa(1+rng.Intn(4)))
+			begin(line)
+			if rng.Intn(2) == 0 {
+				step(sid)
+			}
+			out(fmt.Sprintf("endsess %d", sid))
+			for j := rng.Intn(3); j > 0; j-- {
+				if fl := flying(); len(fl) > 0 {
+					step(pick(rng, fl))
+				}
+			}
+			finish(sid)
+			out("view")
+			if rng.Intn(2) == 0 {
+				begin(line)
+				finish(sid)
+			}
+			if rng.Intn(2) == 0 {
+				other := 1 + rng.Intn(rrSessions)
+				finish(other)
+				tk := strings.Fields(line)
+				tk[1] = strconv.Itoa(other)
+				begin(strings.Join(tk, " "))
+				finish(other)
+			}
+			out("view")
 		case k < 62:
 			fl := flying()
 			if len(fl) == 0 {
